@@ -136,7 +136,15 @@ def fieldKeyOK (k : Bytes) : Bool :=
     fraction — and the parser's number scanner accepts it -/
 def floatTextOK (text : Bytes) : Bool :=
   !text.isEmpty && text.all (fun b => isDigit b || b == 46 || b == 45) &&
-    (match checkNumber text with | .ok _ => true | .error _ => false)
+    (match checkNumber text with | .ok _ => true | .error _ => false) && parseFloatOk text
+
+/-- `strconv.FormatFloat` is a function of the value and is injective: equal texts, equal bits
+    (this is what lets the harness read a float back with `strconv.ParseFloat`) -/
+def floatsConsistent (fs : List (Bytes × FV)) : Bool :=
+  fs.all fun f => fs.all fun g =>
+    match f.2, g.2 with
+    | .float b1 t1, .float b2 t2 => t1 != t2 || b1 == b2
+    | _, _ => true
 
 def fieldValOK : FV → Bool
   | .float bits text => !floatNotFinite bits && floatTextOK text
@@ -165,7 +173,7 @@ def Valid (p : PointIn) (prec : String) : Bool :=
   nameOK p.name &&
   p.tags.all tagOK && strictlySorted (·.key) p.tags && strictlySorted (fun t => escKey t.key) p.tags &&
   !p.fields.isEmpty && p.fields.all (fun f => fieldKeyOK f.1 && fieldValOK f.2) &&
-  distinct (p.fields.map (·.1)) &&
+  distinct (p.fields.map (·.1)) && floatsConsistent p.fields &&
   timeValid prec p.time &&
   p.fields.all (fun f => keyLen p + 4 + escFieldKeyLen f.1 ≤ MaxKeyLength)
 
